@@ -1067,11 +1067,51 @@ def leaves(t, conds=()):
         return
     elif tag == 'match':
         for ps, arm in t[2]:
+            if not pat_may_match(ps, t[1]):
+                continue
             yield from leaves(arm, conds + (('match', t[1], ps),))
     elif tag == 'early':
         yield from leaves(t[1], conds)
     else:
         yield conds, t
+
+
+def pat_may_match(pat, term):
+    """can a value described by `term` match pattern summary `pat`?  (False only when certainly not)"""
+    k = pat[0]
+    if k in ('wild', 'bind', 'other'):
+        return True
+    if k == 'guarded':
+        return pat_may_match(pat[1], term)
+    if k == 'or':
+        return any(pat_may_match(p, term) for p in pat[1])
+    tag = term[0]
+    if tag == 'join':
+        return any(pat_may_match(pat, m) for m in term[1])
+    if tag in ('if',):
+        return pat_may_match(pat, term[2]) or pat_may_match(pat, term[3])
+    if tag == 'orelse':
+        return pat_may_match(pat, term[1]) or pat_may_match(pat, term[2])
+    if k == 'tuple':
+        if tag == 'tuple' and len(term[1]) == len(pat[1]):
+            return all(pat_may_match(p, x) for p, x in zip(pat[1], term[1]))
+        return True
+    if k == 'lit':
+        if tag == 'const':
+            return term[1] == pat[1]
+        return True
+    if k == 'ctor':
+        name = pat[1].split('::')[-1]
+        if tag == 'none':
+            return name == 'None'
+        if tag == 'ctor':
+            return term[1].split('::')[-1] == name
+        if tag == 'global' and '::' in term[1] and term[1].split('::')[-1][:1].isupper() and not pat[2]:
+            return term[1].split('::')[-1] == name
+        if name == 'None' and tag in ('const', 'agg', 'ident', 'tmpl', 'xf', 'fmt'):
+            return False
+        return True
+    return True
 
 
 def wrap_conds(conds, value):
